@@ -227,7 +227,13 @@ func c12Heartbeats(r *Run, p *Peer, N int, tout, hbi time.Duration, answerAt *in
 		}
 		return
 	}
-	for _, s := range oldSessions {
+	var oldIDs []uint64
+	for id := range oldSessions {
+		oldIDs = append(oldIDs, id)
+	}
+	sortU64(oldIDs)
+	for _, id := range oldIDs {
+		s := oldSessions[id]
 		rx := p.Request(p.DeleteMsg(s.UPSEID), 5*time.Second)
 		if rx != nil {
 			if c, _ := CauseOf(rx.Msg); c == ie.CauseRequestAccepted {
